@@ -74,7 +74,8 @@ type v2run struct {
 	gate     chan struct{}
 	free     atomic.Bool
 	freeCh   chan struct{}
-	log      []obs
+	log      []any
+	logSched bool // also log scheduler events (S records) for Trace_PrioV2
 	stop     chan struct{} // releases parked writers of unbuffered inputs at the end
 	parked   map[uint]*atomic.Bool
 	divCalls int
@@ -90,7 +91,7 @@ type v2run struct {
 	badSeen  atomic.Bool
 }
 
-func (r *v2run) emit(o obs) { r.log = append(r.log, o) }
+func (r *v2run) emit(o any) { r.log = append(r.log, o) }
 
 func (r *v2run) hook(ev priority.VerifEvent) {
 	if ev.Ev == "Bad" {
@@ -125,6 +126,7 @@ func newV2(t *testing.T, cfg Config, gated bool) *v2run {
 	base := dividerByName(cfg.Div)
 	div := func(ps []uint, d uint, dist map[uint]uint) {
 		r.divCalls++
+		noteContract(cfg.Prios, cfg.H, ps, d, dist != nil, false)
 		before := uint(0)
 		for _, v := range dist {
 			before += v
@@ -175,15 +177,33 @@ func (r *v2run) next() (priority.VerifEvent, bool) {
 func (r *v2run) await() (priority.VerifEvent, bool) {
 	for try := 0; try < 6; try++ {
 		synctest.Wait()
-		select {
-		case ev := <-r.evCh:
-			r.atGate = true
+		if ev, ok := r.poll(); ok {
 			return ev, true
-		default:
-			time.Sleep(2 * time.Nanosecond)
 		}
+		time.Sleep(2 * time.Nanosecond)
 	}
 	return priority.VerifEvent{}, false
+}
+
+// poll takes a scheduler event that is waiting to be delivered (the scheduler reached its next hook)
+func (r *v2run) poll() (priority.VerifEvent, bool) {
+	select {
+	case ev := <-r.evCh:
+		r.atGate = true
+		if r.logSched {
+			dr := [][2]uint{}
+			for _, p := range r.cfg.Prios {
+				if ev.Drained[p] {
+					dr = append(dr, [2]uint{p, 1})
+				}
+			}
+			r.emit(sev{E: "S", Ev: ev.Ev, P: ev.Priority, Flag: ev.Flag, Actual: pairsU(ev.Actual), Tactic: pairsU(ev.Tactic),
+				Strategic: pairsU(ev.Strategic), Prios: ev.Priorities})
+		}
+		return ev, true
+	default:
+		return priority.VerifEvent{}, false
+	}
 }
 
 func (r *v2run) produce(p uint) error {
@@ -494,7 +514,7 @@ func (r *v2run) compare(name string, isSched bool, st mstate) error {
 }
 
 // replayPath steps the real discipline through one behaviour of the model and then runs the continuation.
-func replayPath(t *testing.T, cfg Config, path []step, cont string) (res pathResult, log []obs, faultBad bool) {
+func replayPath(t *testing.T, cfg Config, path []step, cont string) (res pathResult, log []any, faultBad bool) {
 	synctest.Test(t, func(t *testing.T) {
 		r := newV2(t, cfg, true)
 		var err error
@@ -650,5 +670,6 @@ func TestReplayV2(t *testing.T) {
 			events.put(o)
 		}
 	})
+	flushContract(t, "contract_replay.ndjson")
 	t.Logf("REPLAYED paths=%d steps=%d diverged=%d wall=%v", results.n, steps, diverged, time.Since(start))
 }
